@@ -87,8 +87,7 @@ def finish(ctx, broken=None):
             known_keys[k["key"]] = k
 
     floor_fail = [(r, w, c, m) for (r, w, c, m) in ctx.floors if c < m]
-    if broken is None and floor_fail:
-        broken = "; ".join("%s: %s = %d < floor %d" % x for x in floor_fail)
+    floor_msg = "; ".join("%s: %s = %d < floor %d" % x for x in floor_fail)
 
     viol, knownhit = [], []
     seen = set()
@@ -104,6 +103,12 @@ def finish(ctx, broken=None):
         else:
             viol.append((key, o))
 
+    # an instance count under its floor makes a *pass* untrustworthy (vacuous rule); a violation that
+    # was found on a specific construct stands on its own
+    if broken is None and floor_fail and not viol:
+        broken = floor_msg
+    elif floor_fail:
+        ctx.note("instance floor not met: " + floor_msg)
     code = EXIT_OK
     if broken:
         print("ANALYSIS-BROKEN property=%s %s" % (prop, broken))
@@ -169,8 +174,9 @@ def finish(ctx, broken=None):
         "wall_s": round(wall, 2),
         "violations": len(viol),
     }
-    os.makedirs(os.path.join(VERIF, "evidence"), exist_ok=True)
-    with open(os.path.join(VERIF, "evidence", "%s.json" % prop), "w") as f:
+    evdir = os.environ.get("VERIF_EVIDENCE_DIR") or os.path.join(VERIF, "evidence")
+    os.makedirs(evdir, exist_ok=True)
+    with open(os.path.join(evdir, "%s.json" % prop), "w") as f:
         json.dump(ev, f, indent=1)
     print("%s %s: %d obligations, %d hold, %d known findings, %d new violations, %.1fs%s" % (
         prop, ctx.tier, total, ok, len(knownhit), len(viol), wall,
